@@ -48,6 +48,12 @@ def callLine (s : State) (op : Op) (c : Call) (pans : String) : State × String 
 
 def pr (r : GoResult Bytes) : String := (showRes r).replace " " ":"
 
+/-- error class of a read (`errors.Is(err, storage.ErrNotFound)`) -/
+def cls : RRes → String
+  | .ok _ => "-"
+  | .notFound => "nf"
+  | .failed => "other"
+
 def stepLine (s : State) (ws : List String) : State × String :=
   match ws with
   | ["new"] => (State.init, "ok")
@@ -92,24 +98,24 @@ def stepLine (s : State) (ws : List String) : State × String :=
     match (spec.splitOn ",").mapM one with
     | some parts => (s, "conc " ++ joinWith " " parts)
     | none => (s, "bad-op")
-  | ["slow"] => (s, "skip")
+  | "slow" :: _ => (s, "skip")
   | ["scenario"] => (s, "skip")
   | ["pfail", k, b] => match k.toNat? with
     | some k => (step s (.pFail k (onOff b)), "ok")
     | none => (s, "bad-op")
   | ["rdseg", k] => match k.toNat? with
-    | some k => (s, showRes (dualReadSeg s k none) ++ showCalls (backendCalls s (.rdSeg k none)) ++ " pri=" ++
-        (showRes (s.pri.readSeg k none)).replace " " ":")
+    | some k => (s, showRes (dualReadSegC s k none).toGo ++ showCalls (backendCalls s (.rdSeg k none)) ++ " pri=" ++
+        (showRes (s.pri.readSegC k none).toGo).replace " " ":" ++ " cls=" ++ cls (dualReadSegC s k none) ++ " pcls=" ++ cls (s.pri.readSegC k none))
     | none => (s, "bad-op")
   | ["rdseg", k, a, b] => match k.toNat?, a.toInt?, b.toInt? with
     | some k, some a, some b =>
       let r : Option Rng := some ⟨a, b⟩
-      (s, showRes (dualReadSeg s k r) ++ showCalls (backendCalls s (.rdSeg k r)) ++ " pri=" ++
-        (showRes (s.pri.readSeg k r)).replace " " ":")
+      (s, showRes (dualReadSegC s k r).toGo ++ showCalls (backendCalls s (.rdSeg k r)) ++ " pri=" ++
+        (showRes (s.pri.readSegC k r).toGo).replace " " ":" ++ " cls=" ++ cls (dualReadSegC s k r) ++ " pcls=" ++ cls (s.pri.readSegC k r))
     | _, _, _ => (s, "bad-op")
   | ["rdidx", k] => match k.toNat? with
-    | some k => (s, showRes (dualReadIdx s k) ++ showCalls (backendCalls s (.rdIdx k)) ++ " pri=" ++
-        (showRes (s.pri.readIdx k)).replace " " ":")
+    | some k => (s, showRes (dualReadIdxC s k).toGo ++ showCalls (backendCalls s (.rdIdx k)) ++ " pri=" ++
+        (showRes (s.pri.readIdxC k).toGo).replace " " ":" ++ " cls=" ++ cls (dualReadIdxC s k) ++ " pcls=" ++ cls (s.pri.readIdxC k))
     | none => (s, "bad-op")
   | ["list"] => callLine s .list .list (showListing s.pri.listSegments.2)
   | ["ensure"] => callLine s .ensure .ensure (showUnit s.pri.ensureBucket.2)
